@@ -6,6 +6,7 @@ package main
 // files, marker text). Everything else gets an "unlisted:" signature and is a VIOLATION.
 
 import (
+	"encoding/json"
 	"fmt"
 	"regexp"
 	"sort"
@@ -115,6 +116,9 @@ func (w *walker) attr(a *dg.Attr, objDepth int, inCollection bool) {
 			w.f["collection-default"] = true
 		}
 	}
+	if a.V != nil && len(a.V.Enum) > 0 && (t.Kind == "array" || t.Kind == "map" || (t.Kind == "prim" && t.Prim == "Bytes")) {
+		w.f["enum-on-collection-or-bytes"] = true
+	}
 	switch t.Kind {
 	case "object":
 		if objDepth >= 1 || inCollection {
@@ -180,7 +184,8 @@ func (w *walker) resolveObject(a *dg.Attr) *dg.Type {
 	return nil
 }
 
-func (w *walker) param(obj *dg.Type, prim *dg.Attr, e dg.MapEntry, cookie bool) {
+func (w *walker) param(obj *dg.Type, prim *dg.Attr, e dg.MapEntry, loc string) {
+	cookie := loc == "cookie"
 	if generatedLocals[codegen.Goify(e.Attr, false)] && breakingLocals[codegen.Goify(e.Attr, false)] {
 		w.f["param-name-shadows-generated-identifier"] = true
 	}
@@ -188,6 +193,9 @@ func (w *walker) param(obj *dg.Type, prim *dg.Attr, e dg.MapEntry, cookie bool) 
 	if obj != nil {
 		if f := fieldByName(obj, e.Attr); f != nil {
 			t = &f.A.T
+			if f.A.Sec != nil && (f.A.Sec.Fn == "Username" || f.A.Sec.Fn == "Password") {
+				w.f["basic-auth-credential-mapped"] = true
+			}
 			if f.A.V != nil && f.A.V.MaxLen != nil && *f.A.V.MaxLen < 3 && t.Kind == "map" {
 				w.f["map-param-maxlength-below-3"] = true
 			}
@@ -204,6 +212,32 @@ func (w *walker) param(obj *dg.Type, prim *dg.Attr, e dg.MapEntry, cookie bool) 
 	if cookie && t.Kind == "prim" && t.Prim != "String" {
 		w.f["non-string-cookie"] = true
 	}
+	if t.Kind == "map" && (loc == "header" || loc == "cookie") {
+		w.f["map-in-header-or-cookie"] = true
+	}
+	if t.Kind == "map" && loc == "query" && t.Elem != nil && !simpleParamElem(&t.Elem.T) {
+		w.f["map-param-nonprimitive-element"] = true
+	}
+}
+
+// simpleParamElem: a primitive other than Any/Bytes, or an array of those
+func simpleParamElem(t *dg.Type) bool {
+	switch t.Kind {
+	case "prim":
+		return t.Prim != "Any" && t.Prim != "Bytes"
+	case "array":
+		return t.Elem != nil && t.Elem.T.Kind == "prim" && t.Elem.T.Prim != "Any" && t.Elem.T.Prim != "Bytes"
+	}
+	return false
+}
+
+// stringMap: MapOf(String, String) or MapOf(String, ArrayOf(String)), what MapParams can carry
+func stringMap(t *dg.Type) bool {
+	if t.Kind != "map" || t.Key == nil || t.Elem == nil || t.Key.T.Kind != "prim" || t.Key.T.Prim != "String" {
+		return false
+	}
+	e := &t.Elem.T
+	return (e.Kind == "prim" && e.Prim == "String") || (e.Kind == "array" && e.Elem != nil && e.Elem.T.Kind == "prim" && e.Elem.T.Prim == "String")
 }
 
 func designFeatures(d *dg.Design) featureSet {
@@ -238,6 +272,39 @@ func designFeatures(d *dg.Design) featureSet {
 		w.name(s.Name)
 		seen := map[string]string{}
 		kindUsers := map[string]map[string]bool{} // scheme kind -> scheme names used by the service
+		errTypes := map[string]string{}
+		for _, m := range s.Methods {
+			for _, e := range m.Errors {
+				tj := "ErrorResult"
+				if e.T != nil {
+					tj = fmt.Sprintf("%+v", *e.T)
+					if b, err := json.Marshal(e.T); err == nil {
+						tj = string(b)
+					}
+				}
+				if prev, ok := errTypes[e.Name]; ok && prev != tj {
+					w.f["error-name-reused-with-different-type"] = true
+				}
+				errTypes[e.Name] = tj
+			}
+			isUserColl := func(a *dg.Attr) bool {
+				if a == nil || (a.T.Kind != "array" && a.T.Kind != "map") || a.T.Elem == nil {
+					return false
+				}
+				return a.T.Elem.T.Kind == "user" && w.aliasOf(&a.T.Elem.T) == nil
+			}
+			body := m.Payload
+			if m.HTTP != nil && m.HTTP.Body != nil && m.HTTP.Body.Attr != "" {
+				if po := w.resolveObject(m.Payload); po != nil {
+					if f := fieldByName(po, m.HTTP.Body.Attr); f != nil {
+						body = &f.A
+					}
+				}
+			}
+			if len(s.Methods) > 1 && (isUserColl(body) || isUserColl(m.StreamingPayload)) {
+				w.f["collection-of-user-type-body-in-multi-method-service"] = true
+			}
+		}
 		for _, m := range s.Methods {
 			reqs := m.Security
 			if len(reqs) == 0 && !m.NoSecurity {
@@ -278,6 +345,14 @@ func designFeatures(d *dg.Design) featureSet {
 					w.attr(&a, 0, false)
 				}
 			}
+			if sp := m.StreamingPayload; sp != nil {
+				if w.isAliasParam(&sp.T) {
+					w.f["alias-streaming-payload"] = true
+				}
+				if sp.T.Kind == "collection" {
+					w.f["result-collection-in-request"] = true
+				}
+			}
 			h := m.HTTP
 			if h == nil {
 				continue
@@ -288,16 +363,16 @@ func designFeatures(d *dg.Design) featureSet {
 				pprim = m.Payload
 			}
 			for _, e := range h.Params {
-				w.param(pobj, pprim, e, false)
+				w.param(pobj, pprim, e, "query")
 			}
 			for _, e := range h.Headers {
-				w.param(pobj, pprim, e, false)
+				w.param(pobj, pprim, e, "header")
 				if pprim != nil {
 					w.f["primitive-payload-in-header"] = true
 				}
 			}
 			for _, e := range h.Cookies {
-				w.param(pobj, pprim, e, true)
+				w.param(pobj, pprim, e, "cookie")
 				if pprim != nil {
 					w.f["primitive-payload-in-header"] = true
 				}
@@ -318,11 +393,48 @@ func designFeatures(d *dg.Design) featureSet {
 			}
 			for _, r := range h.Routes {
 				for _, seg := range regexp.MustCompile(`\{\*?([^}]+)\}`).FindAllStringSubmatch(r.Path, -1) {
-					w.param(pobj, pprim, dg.MapEntry{Attr: seg[1]}, false)
+					w.param(pobj, pprim, dg.MapEntry{Attr: seg[1]}, "path")
 				}
 			}
 			if h.Multipart {
 				w.f["multipart-request"] = true
+			}
+			if h.MapParams != "" {
+				var mt *dg.Type
+				if h.MapParams == "*" {
+					if m.Payload != nil {
+						mt = &m.Payload.T
+					}
+				} else if pobj != nil {
+					if f := fieldByName(pobj, h.MapParams); f != nil {
+						mt = &f.A.T
+					}
+				}
+				if mt != nil && !stringMap(mt) {
+					w.f["map-params-unsupported-type"] = true
+				}
+			}
+			if m.Payload != nil && m.Payload.T.Kind == "collection" {
+				w.f["result-collection-in-request"] = true
+			}
+			if h.Body != nil && h.Body.Attr != "" && pobj != nil {
+				if f := fieldByName(pobj, h.Body.Attr); f != nil {
+					if f.A.T.Kind == "collection" {
+						w.f["result-collection-in-request"] = true
+					}
+					if f.A.T.Kind == "prim" && f.A.T.Prim == "Bytes" {
+						w.f["bytes-body-attribute"] = true
+					}
+				}
+			}
+			for _, er := range h.Errors {
+				for _, ed := range m.Errors {
+					if ed.Name == er.Name && ed.T != nil && ed.T.Kind == "object" {
+						for _, e := range er.R.Headers {
+							w.param(ed.T, nil, e, "header")
+						}
+					}
+				}
 			}
 			robj := w.resolveObject(m.Result)
 			okStatus := map[int]bool{}
@@ -332,10 +444,10 @@ func designFeatures(d *dg.Design) featureSet {
 					w.f["tag-missing-attribute"] = true
 				}
 				for _, e := range r.Headers {
-					w.param(robj, m.Result, e, false)
+					w.param(robj, m.Result, e, "header")
 				}
 				for _, e := range r.Cookies {
-					w.param(robj, m.Result, e, true)
+					w.param(robj, m.Result, e, "cookie")
 				}
 			}
 			if len(h.Responses) == 0 {
@@ -368,10 +480,20 @@ var rules = []rule{
 	{"digit-led-name", "digit-led-name", []string{"gen-error"}, nil, `\.go:\d+:\d+: expected `},
 	{"default-string-needs-escaping", "default-string-needs-escaping", []string{"gen-error"}, nil, `cli\.go:\d+:\d+: (missing ',' in argument list|string literal not terminated|unknown escape)`},
 	{"unexportable-name", "unexportable-name", []string{"build-error"}, []string{"other:", "type-mismatch", "undefined"}, `unexported|not exported by package`},
-	{"alias-in-param", "alias-in-param", []string{"build-error"}, []string{"type-mismatch", "unused-variable", "redeclared-short-var"}, `svc\.Alias|as svc\.\w+ value|variable of type any`},
-	{"non-string-cookie", "non-string-cookie", []string{"build-error"}, []string{"type-mismatch", "unused-variable", "redeclared-short-var"}, `declared and not used: \w+raw`},
+	{"non-string-cookie", "non-string-cookie", []string{"build-error"}, []string{"type-mismatch", "unused-variable", "redeclared-short-var", "undefined"}, `declared and not used: \w+raw`},
+	{"map-params-unsupported-type", "map-params-unsupported-type", []string{"gen-error"}, nil, `executing "(partial_request_elements|request-encoder)" at <\.(Type\.KeyType\.Type|Loop)>`},
+	{"map-in-header-or-cookie", "map-in-header-or-cookie", []string{"build-error", "gen-error"}, nil, `declared and not used: (head|val|vraw)$|undefined: (headStr|rhs|UObj)|expected selector or type assertion`},
+	{"map-param-nonprimitive-element", "map-param-nonprimitive-element", []string{"build-error"}, nil, `undefined: [A-Z]\w*$|declared and not used: val\w*Raw`},
+	{"enum-on-collection-or-bytes", "enum-on-collection-or-bytes", []string{"build-error"}, []string{"type-mismatch"}, `types\.go: invalid operation: \w+(\.\w+)? == `},
+	{"basic-auth-credential-mapped", "basic-auth-credential-mapped", []string{"build-error"}, []string{"redeclared", "type-mismatch"}, `cli\.go: \w+ redeclared in this block`},
+	{"result-collection-in-request", "result-collection-in-request", []string{"build-error"}, []string{"type-mismatch"}, `cannot use &body \(value of type \*\w+\) as \w+ value in argument to Validate`},
+	{"bytes-body-attribute", "bytes-body-attribute", []string{"build-error"}, []string{"type-mismatch"}, `\*\[\]byte\) as \[\]byte value`},
+	{"error-name-reused-with-different-type", "error-name-reused-with-different-type", []string{"build-error"}, []string{"type-mismatch", "undefined", "undefined-field"}, `encode_decode\.go|types\.go`},
+	{"collection-of-user-type-body-helper", "collection-of-user-type-body-in-multi-method-service", []string{"build-error"}, []string{"undefined"}, `client/(encode_decode|websocket)\.go: undefined: New\w+`},
+	{"alias-streaming-payload", "alias-streaming-payload", []string{"build-error"}, []string{"type-mismatch"}, `variable of type \*?(svc\.)?A\w+\) as (svc\.)?A\w+ value`},
+	{"alias-in-param", "alias-in-param", []string{"build-error", "gen-error"}, nil, `svc\.A\w+|as svc\.\w+ value|variable of type any|to type svc\.\w+|expected selector or type assertion|declared and not used: \w+raw`},
 	{"nested-inline-object", "nested-inline-object", []string{"build-error"}, []string{"type-mismatch", "undefined"}, `struct\s*\{|StructX|undefined: (un)?marshal|undefined: [A-Z]`},
-	{"primitive-payload-in-header", "primitive-payload-in-header", []string{"build-error"}, []string{"unused-variable"}, `client/encode_decode\.go: declared and not used: p$`},
+	{"primitive-payload-in-header", "primitive-payload-in-header", []string{"build-error"}, []string{"unused-variable", "undefined"}, `client/encode_decode\.go: declared and not used: p$`},
 	{"two-schemes-same-kind", "two-schemes-same-kind", []string{"build-error"}, []string{"redeclared", "type-mismatch", "undefined"}, `auth\w+Fn redeclared|duplicate method \w+Auth`},
 	{"fixed-view-collection-element-validator", "fixed-view-nested-collection-view", []string{"build-error"}, []string{"undefined"}, `client/types\.go: undefined: Validate\w+ResponseBody`},
 	{"duplicate-status-code", "duplicate-status-code", []string{"build-error"}, []string{"duplicate-case"}, `duplicate case http\.Status`},
@@ -379,7 +501,7 @@ var rules = []rule{
 	{"goify-collision-attributes", "goify-collision-attributes", []string{"build-error"}, []string{"redeclared", "type-mismatch", "undefined"}, `redeclared|duplicate field`},
 	{"tag-missing-attribute", "tag-missing-attribute", []string{"build-error"}, []string{"undefined-field"}, `res\.\w+ undefined`},
 	{"bytes-default", "bytes-default", []string{"build-error"}, []string{"type-mismatch"}, `slice can only be compared to nil`},
-	{"collection-default", "collection-default", []string{"build-error"}, []string{"type-mismatch"}, `\[\]interface\{\}|map\[interface`},
+	{"collection-default", "collection-default", []string{"build-error"}, []string{"type-mismatch"}, `\[\]interface\{\}|map\[(interface|string)\]interface`},
 	{"alias-of-alias", "alias-of-alias", []string{"build-error"}, []string{"type-mismatch"}, `RequestBody and untyped nil|cannot indirect`},
 	{"recursive-result-type", "recursive-result-type", []string{"build-error"}, []string{"redeclared", "undefined"}, `redeclared in this block|undefined: Validate`},
 	{"method-name-new-prefix", "method-name-new-prefix", []string{"build-error"}, []string{"redeclared", "type-mismatch"}, `New\w+ redeclared`},
@@ -418,7 +540,7 @@ func classify(d *dg.Design, v Verdict) string {
 		}
 		ok := true
 		for _, c := range classes {
-			if !allowedClass(r.classes, c) {
+			if r.classes != nil && !allowedClass(r.classes, c) {
 				ok = false
 			}
 		}
